@@ -4,7 +4,7 @@ use core::any::TypeId;
 use core::mem::{size_of, MaybeUninit};
 use core::ptr::NonNull;
 use crate::AnyVec;
-use crate::any_value::{AnyValue, AnyValueRaw, AnyValueWrapper};
+use crate::any_value::{AnyValue, AnyValueRaw, AnyValueSizeless, AnyValueWrapper};
 use crate::any_vec_ptr::{AnyVecPtr, AnyVecRawPtr, IAnyVecRawPtr};
 use crate::ops::Iterable;
 use crate::traits::None;
@@ -241,6 +241,51 @@ fn splice_h<T: 'static>(typed: bool, drop: bool, how: usize, fixed: bool, misrep
     }
     kani::cover!(k == KMAX && b > 0 && f > 0 && end < len && len + k > cap + (end - start), "COV growing splice, both ends consumed");
     kani::cover!(k == 0 && start < end, "COV pure removal");
+    kani::cover!(true, "REACHED");
+    core::mem::forget(v);
+}
+
+
+/// History "an element yielded by drain / splice is consumed AFTER its range iterator is gone".  Safe code: the
+/// yielded handle borrows the vector (lifetime of `drain(&mut self)`), not the iterator, so
+/// `let e = v.drain(a..b).next().unwrap(); drop(e)` compiles.  C03 demands that consuming `e` then still
+/// destroys the value that was yielded and nothing that is visible in the vector.
+/// On the pinned tree this FAILS (known finding D15, known_findings.json): the handle points at a slot the
+/// iterator's drop has refilled with a tail element, which is then destroyed while still visible.
+fn range_item_outlives_h<T: 'static>(splice: bool) {
+    ghost_init();
+    let (len, cap) = sym_state();
+    let mut v = unsafe { mk_vec::<dyn None, T>(0, len, cap, false, true) };
+    reg(&v, 0);
+    let esz = size_of::<T>();
+    kani::assume(len > 0);
+    let _w = witness_slot(TW, 0, len);
+    let start = any_narrow();
+    let end = any_narrow();
+    kani::assume(start < end && end <= len);
+    let r = if splice {
+        v.splice(start..end, RawRepl { left: 0, report: 0, p: core::ptr::null_mut(), esz, tid: TypeId::of::<T>() }).next()
+    } else {
+        v.drain(start..end).next()
+    };
+    // the range iterator is gone: the rest of the range destroyed, the tail moved down
+    kani::assert(r.is_some(), "a non-empty range yields its first element");
+    kani::assert(g().total_destroyed == end - start - 1, "range iterator dropped after one item: destroys exactly the unyielded range items");
+    let len2 = cur_len(0);
+    kani::assert(len2 == post::drain_len(len, start, end), "drain: len' == len - (end - start)");
+    if let Some(item) = &r {
+        // whatever the caller now does with its element (drop, downcast, move into another vector) acts on
+        // the slot the handle addresses: that slot must not be one the vector still shows
+        let a = off(item.as_bytes_ptr());
+        if esz != 0 {
+            kani::assert(a.is_some(), "a yielded element handle addresses vector storage");
+            if let Some(a) = a {
+                kani::assert(!(base(0) <= a && a < base(0) + len2 * esz),
+                    "an element yielded by a range iterator and still held after the iterator is gone does not alias an element visible in the vector (consuming it would destroy or move out a visible element)");
+            }
+        }
+    }
+    core::mem::forget(r);
     kani::cover!(true, "REACHED");
     core::mem::forget(v);
 }
